@@ -162,5 +162,35 @@ def main():
     return audit_patches(a[0], names, matrix, suite)
 
 
+
+
+def report():
+    """Markdown tables for DESIGN §9 from the RESULTS.json files."""
+    for kind in ("mutants", "seeded"):
+        f = os.path.join(VERIF, kind, "RESULTS.json")
+        if not os.path.exists(f):
+            continue
+        r = json.load(open(f))
+        print("\n#### %s\n" % kind)
+        print("| change | expected | caught by (quick tier) | suite passes | classes reported by the expected check |")
+        print("|---|---|---|---|---|")
+        for k, v in sorted(r.items()):
+            if v.get("equivalent"):
+                print("| `%s` | equivalent mutant | – | – | – |" % k)
+                continue
+            cls = []
+            for c in v.get("expect", []):
+                cls += v.get("checks", {}).get(c, {}).get("classes", [])[:3]
+            su = v.get("suite", {})
+            print("| `%s` | %s | %s%s | %s | %s |" % (
+                k, ", ".join(v.get("expect", [])), ", ".join(v.get("caught_by", [])) or "**missed**",
+                (" (machinery error: %s)" % ",".join(v["machinery_errors"])) if v.get("machinery_errors") else "",
+                {True: "yes", False: "NO", None: "?"}[su.get("tests_pass")] if su else "confirmed at ingestion",
+                "; ".join(cls)[:160]))
+
+
 if __name__ == "__main__":
+    if len(sys.argv) > 1 and sys.argv[1] == "report":
+        report()
+        sys.exit(0)
     sys.exit(main())
